@@ -86,7 +86,19 @@ func runCaseRealtime(c *Case) Verdict {
 				s.lk.pause(false)
 			}
 		}
+		removed := map[string]bool{}
+		for _, op := range e.C.Ops {
+			switch op.K {
+			case "remove_realm":
+				removed[op.URI] = true
+			case "add_realm":
+				delete(removed, op.URI)
+			}
+		}
 		for i := range e.C.Realms {
+			if removed[e.C.Realms[i].URI] {
+				continue // the case removed that realm itself
+			}
 			if _, err := e.Probe(e.C.Realms[i].URI); err != nil && err != errProbeSkipped {
 				done <- Verdict{Kind: "hang", Prop: c.Prop, Reason: "confirmed on the real clock, outside the test bubble: " + err.Error()}
 				return
